@@ -135,6 +135,17 @@ func (w *World) ctxLiteral(al *ssa.Alloc) *ctorInfo {
 				whole = basePtr(ld.X)
 				out.Prec = nil
 			}
+			// nc := helper(…): a helper of the package that returns a Context by value, itself a copy of a
+			// context with some fields set (internalContext(p), c.halfEvenCopy())
+			if call, isCall := st.Val.(*ssa.Call); isCall {
+				if inner, src, prec := w.ctxValueCtor(call); inner != nil {
+					whole = src
+					out.Prec = prec
+					for k, v := range inner.Consts {
+						out.Consts[k] = v
+					}
+				}
+			}
 			continue
 		}
 		fa, isFA := st.Addr.(*ssa.FieldAddr)
@@ -208,4 +219,60 @@ func (ci *ctorInfo) fromParam() (*ssa.Parameter, bool) {
 func (ci *ctorInfo) fromBaseContext() bool {
 	g, ok := basePtr(ci.Src).(*ssa.Global)
 	return ok && g.Name() == "BaseContext"
+}
+
+// ctxValueCtor: call is a call of an in-package function that returns a Context by value, every return of
+// which loads one local that is a whole copy of a context (a parameter or a package-level one) with fields
+// set. Returns the inner description and, in the caller's terms, the copied context and the precision.
+func (w *World) ctxValueCtor(call *ssa.Call) (*ctorInfo, ssa.Value, ssa.Value) {
+	g := callee(call)
+	if g == nil || !w.inPkg(g) || len(g.Blocks) == 0 || g.Signature.Results().Len() != 1 {
+		return nil, nil, nil
+	}
+	if !typeIs(g.Signature.Results().At(0).Type(), apdPath, "Context") || isPointer(g.Signature.Results().At(0).Type()) {
+		return nil, nil, nil
+	}
+	var local *ssa.Alloc
+	for _, b := range g.Blocks {
+		rt, isRet := b.Instrs[len(b.Instrs)-1].(*ssa.Return)
+		if !isRet {
+			continue
+		}
+		ld, isLd := rt.Results[0].(*ssa.UnOp)
+		if !isLd || ld.Op.String() != "*" {
+			return nil, nil, nil
+		}
+		al, isAl := ld.X.(*ssa.Alloc)
+		if !isAl || local != nil && al != local {
+			return nil, nil, nil
+		}
+		local = al
+	}
+	if local == nil {
+		return nil, nil, nil
+	}
+	inner := w.ctxLiteral(local)
+	if inner == nil || inner.Src == nil {
+		return nil, nil, nil
+	}
+	mapBack := func(x ssa.Value) ssa.Value {
+		switch y := x.(type) {
+		case nil:
+			return nil
+		case *ssa.Parameter:
+			for i, q := range g.Params {
+				if q == y && i < len(call.Common().Args) {
+					return call.Common().Args[i]
+				}
+			}
+		case *ssa.Global, *ssa.Const:
+			return x
+		}
+		return nil
+	}
+	src := mapBack(basePtr(inner.Src))
+	if src == nil {
+		return nil, nil, nil
+	}
+	return inner, basePtr(src), mapBack(inner.Prec)
 }
